@@ -1,17 +1,1097 @@
-//! Lane C placeholder (replaced by the real C-table lane).
-use crate::exec::Violation;
-use crate::lanes::RunReport;
-use serde_json::{json, Value};
+//! Lane C: the exported C function table driven by a real C translation unit compiled against
+//! the shipped header, compared step by step with the native API on a twin packet.
 
-pub fn run_lane_c(_seed: u64, _run: u64) -> RunReport {
-    unimplemented!("lane C")
+use crate::battery::{first_diff, guarded, observe};
+use crate::codec;
+use crate::exec::{bump, first_words, Stats, Violation};
+use crate::gen;
+use crate::lanes::RunReport;
+use crate::model::*;
+use crate::prng::{self, Fnv, Rng};
+use dnssector::c_abi::FnTable;
+use dnssector::synth::r#gen as dgen;
+use dnssector::*;
+use serde::{Deserialize, Serialize};
+use serde_json::{json, Value};
+use std::net::IpAddr;
+
+include!(concat!(env!("OUT_DIR"), "/cprobe.rs"));
+
+extern "C" {
+    fn dnssim_driver_ok() -> i32;
+    fn dnssim_run_op(
+        t: *const FnTable,
+        pp: *mut ParsedPacket,
+        script: *const u8,
+        script_len: usize,
+        logbuf: *mut u8,
+        log_cap: usize,
+        log_len: *mut usize,
+    ) -> i32;
 }
-pub fn minimise(scenario: &Value, _sig: &str, _budget: usize) -> Value {
-    json!({"scenario": scenario, "candidates": 0})
+
+const MAX_VISITS: u32 = 300;
+
+#[derive(Clone, Debug, Serialize, Deserialize, PartialEq, Eq)]
+pub enum CbOp {
+    Name,
+    Type,
+    Class,
+    Ttl,
+    SetTtl(u32),
+    Ip,
+    SetIp(#[serde(with = "crate::ops::hexbytes")] Vec<u8>),
+    SetRawName(#[serde(with = "crate::ops::hexbytes")] Vec<u8>),
+    SetName {
+        #[serde(with = "crate::ops::hexbytes")]
+        text: Vec<u8>,
+        #[serde(with = "crate::ops::hexbytes")]
+        zone: Vec<u8>,
+    },
+    Delete,
+    Stop,
 }
-pub fn replay(_scenario: &Value, _verbose: bool) -> Result<Option<Violation>, String> {
-    Err("lane C not built".into())
+
+#[derive(Clone, Debug, Serialize, Deserialize, PartialEq, Eq)]
+pub enum TopOp {
+    Flags,
+    SetFlags(u32),
+    Rcode,
+    SetRcode(u8),
+    Opcode,
+    SetOpcode(u8),
+    Add {
+        section: u8,
+        #[serde(with = "crate::ops::hexbytes")]
+        text: Vec<u8>,
+    },
+    RawPacket {
+        cap: u16,
+    },
+    Question,
+    Rename {
+        #[serde(with = "crate::ops::hexbytes")]
+        target: Vec<u8>,
+        #[serde(with = "crate::ops::hexbytes")]
+        source: Vec<u8>,
+        suffix: bool,
+    },
+    RawNameFromStr(#[serde(with = "crate::ops::hexbytes")] Vec<u8>),
+    Iter {
+        section: u8,
+        progs: Vec<Vec<CbOp>>,
+    },
+    AbiVersion,
 }
-pub fn death_violation(_seed: u64, run: u64, why: &str) -> Value {
-    json!({"run": run, "why": why})
+
+impl TopOp {
+    pub fn kind(&self) -> String {
+        match self {
+            TopOp::Flags => "flags".into(),
+            TopOp::SetFlags(_) => "set_flags".into(),
+            TopOp::Rcode => "rcode".into(),
+            TopOp::SetRcode(_) => "set_rcode".into(),
+            TopOp::Opcode => "opcode".into(),
+            TopOp::SetOpcode(_) => "set_opcode".into(),
+            TopOp::Add { section, .. } => {
+                format!("add_to_{}", ["question", "answer", "nameservers", "additional"][*section as usize & 3])
+            }
+            TopOp::RawPacket { .. } => "raw_packet".into(),
+            TopOp::Question => "question".into(),
+            TopOp::Rename { .. } => "rename_with_raw_names".into(),
+            TopOp::RawNameFromStr(_) => "raw_name_from_str".into(),
+            TopOp::Iter { section, .. } => {
+                format!("iter_{}", ["answer", "nameservers", "additional", "edns"][*section as usize & 3])
+            }
+            TopOp::AbiVersion => "abi_version".into(),
+        }
+    }
+}
+
+#[derive(Clone, Debug, Serialize, Deserialize, PartialEq, Eq)]
+pub struct ScenC {
+    #[serde(with = "crate::ops::hexbytes")]
+    pub packet: Vec<u8>,
+    pub ops: Vec<TopOp>,
+}
+
+// ---------------------------------------------------------------------------------------------
+// encoding for the C interpreter
+// ---------------------------------------------------------------------------------------------
+
+fn put_blob(v: &mut Vec<u8>, b: &[u8]) {
+    v.extend_from_slice(&(b.len() as u16).to_be_bytes());
+    v.extend_from_slice(b);
+}
+
+fn encode_cb(p: &[CbOp]) -> Vec<u8> {
+    let mut v = Vec::new();
+    for op in p {
+        match op {
+            CbOp::Name => v.push(0x50),
+            CbOp::Type => v.push(0x51),
+            CbOp::Class => v.push(0x52),
+            CbOp::Ttl => v.push(0x53),
+            CbOp::SetTtl(t) => {
+                v.push(0x54);
+                v.extend_from_slice(&t.to_be_bytes());
+            }
+            CbOp::Ip => v.push(0x55),
+            CbOp::SetIp(a) => {
+                v.push(0x56);
+                put_blob(&mut v, a);
+            }
+            CbOp::SetRawName(n) => {
+                v.push(0x57);
+                put_blob(&mut v, n);
+            }
+            CbOp::SetName { text, zone } => {
+                v.push(0x58);
+                put_blob(&mut v, text);
+                put_blob(&mut v, zone);
+            }
+            CbOp::Delete => v.push(0x59),
+            CbOp::Stop => v.push(0x5A),
+        }
+    }
+    v
+}
+
+fn encode_top(op: &TopOp) -> Vec<u8> {
+    let mut v = Vec::new();
+    match op {
+        TopOp::Flags => v.push(0x01),
+        TopOp::SetFlags(f) => {
+            v.push(0x02);
+            v.extend_from_slice(&f.to_be_bytes());
+        }
+        TopOp::Rcode => v.push(0x03),
+        TopOp::SetRcode(r) => {
+            v.push(0x04);
+            v.push(*r);
+        }
+        TopOp::Opcode => v.push(0x05),
+        TopOp::SetOpcode(r) => {
+            v.push(0x06);
+            v.push(*r);
+        }
+        TopOp::Add { section, text } => {
+            v.push(0x10 + (*section & 3));
+            put_blob(&mut v, text);
+        }
+        TopOp::RawPacket { cap } => {
+            v.push(0x20);
+            v.extend_from_slice(&cap.to_be_bytes());
+        }
+        TopOp::Question => v.push(0x21),
+        TopOp::Rename {
+            target,
+            source,
+            suffix,
+        } => {
+            v.push(0x22);
+            put_blob(&mut v, target);
+            put_blob(&mut v, source);
+            v.push(*suffix as u8);
+        }
+        TopOp::RawNameFromStr(n) => {
+            v.push(0x23);
+            put_blob(&mut v, n);
+        }
+        TopOp::Iter { section, progs } => {
+            v.push(0x30 + (*section & 3));
+            v.push(progs.len() as u8);
+            for p in progs {
+                put_blob(&mut v, &encode_cb(p));
+            }
+        }
+        TopOp::AbiVersion => v.push(0x40),
+    }
+    v
+}
+
+// ---------------------------------------------------------------------------------------------
+// native twin: the same operation through the Rust API, writing the same log
+// ---------------------------------------------------------------------------------------------
+
+struct L(Vec<u8>);
+impl L {
+    fn u8(&mut self, v: u8) {
+        self.0.push(v)
+    }
+    fn u16(&mut self, v: u16) {
+        self.0.extend_from_slice(&v.to_be_bytes())
+    }
+    fn u32(&mut self, v: u32) {
+        self.0.extend_from_slice(&v.to_be_bytes())
+    }
+    fn u64(&mut self, v: u64) {
+        self.0.extend_from_slice(&v.to_be_bytes())
+    }
+    fn str(&mut self, b: &[u8]) {
+        self.u16(b.len() as u16);
+        self.0.extend_from_slice(b);
+    }
+    /// what the C side sees of a NUL-terminated string written into a 256-byte buffer
+    fn cstr(&mut self, b: &[u8]) {
+        let n = b.iter().position(|&c| c == 0).unwrap_or(b.len());
+        self.str(&b[..n]);
+    }
+    fn rc(&mut self, r: &Result<(), Error>) {
+        match r {
+            Ok(()) => self.u8(0),
+            Err(e) => {
+                self.u8(0xff);
+                let s = e.to_string();
+                let b = s.as_bytes();
+                self.str(&b[..b.len().min(2000)]);
+            }
+        }
+    }
+}
+
+fn native_cb(item: &mut ResponseIterator, prog: &[CbOp], l: &mut L) -> bool {
+    let mut deleted = false;
+    for op in prog {
+        match op {
+            CbOp::Name => {
+                if !deleted {
+                    l.cstr(&item.name());
+                }
+            }
+            CbOp::Type => {
+                if !deleted {
+                    l.u16(item.rr_type())
+                }
+            }
+            CbOp::Class => {
+                if !deleted {
+                    l.u16(item.rr_class())
+                }
+            }
+            CbOp::Ttl => {
+                if !deleted {
+                    l.u32(item.rr_ttl())
+                }
+            }
+            CbOp::SetTtl(t) => {
+                if !deleted {
+                    item.set_rr_ttl(*t)
+                }
+            }
+            CbOp::Ip => {
+                if deleted {
+                    continue;
+                }
+                let ty = item.rr_type();
+                if ty != 1 && ty != 28 {
+                    continue;
+                }
+                match item.rr_ip() {
+                    Ok(IpAddr::V4(ip)) => {
+                        l.u8(4);
+                        l.0.extend_from_slice(&ip.octets());
+                    }
+                    Ok(IpAddr::V6(ip)) => {
+                        l.u8(16);
+                        l.0.extend_from_slice(&ip.octets());
+                    }
+                    Err(_) => l.u8(0xfd),
+                }
+            }
+            CbOp::SetIp(a) => {
+                if deleted {
+                    continue;
+                }
+                let ty = item.rr_type();
+                if ty == 1 && a.len() == 4 {
+                    let _ = item.set_rr_ip(&IpAddr::from([a[0], a[1], a[2], a[3]]));
+                } else if ty == 28 && a.len() == 16 {
+                    let mut b = [0u8; 16];
+                    b.copy_from_slice(a);
+                    let _ = item.set_rr_ip(&IpAddr::from(b));
+                }
+            }
+            CbOp::SetRawName(n) => {
+                if deleted {
+                    continue;
+                }
+                let r = item.set_raw_name(n);
+                l.rc(&r);
+            }
+            CbOp::SetName { text, zone } => {
+                if deleted {
+                    continue;
+                }
+                let z = if zone.is_empty() { None } else { Some(&zone[..]) };
+                let r = match dgen::raw_name_from_str(text, z) {
+                    Err(e) => Err(e),
+                    Ok(raw) => item.set_raw_name(&raw),
+                };
+                l.rc(&r);
+            }
+            CbOp::Delete => {
+                let r = item.delete();
+                if r.is_ok() {
+                    deleted = true;
+                }
+                l.rc(&r);
+            }
+            CbOp::Stop => return true,
+        }
+    }
+    false
+}
+
+fn native_iter<'a>(first: Option<ResponseIterator<'a>>, progs: &[Vec<CbOp>], l: &mut L) {
+    let mut visits: u32 = 0;
+    let mut it = first;
+    while let Some(mut item) = it {
+        l.u8(0xC0);
+        l.u16(visits as u16);
+        let which = if progs.is_empty() { 0 } else { visits as usize % progs.len() };
+        visits += 1;
+        let stop = if visits > MAX_VISITS {
+            true
+        } else if progs.is_empty() {
+            false
+        } else {
+            native_cb(&mut item, &progs[which], l)
+        };
+        if stop {
+            break;
+        }
+        it = item.next();
+    }
+    l.u8(0xC1);
+    l.u16(visits as u16);
+}
+
+fn native_top(pp: &mut ParsedPacket, op: &TopOp) -> Vec<u8> {
+    let mut l = L(Vec::new());
+    match op {
+        TopOp::Flags => l.u32(pp.flags()),
+        TopOp::SetFlags(f) => pp.set_flags(*f),
+        TopOp::Rcode => l.u8(pp.rcode()),
+        TopOp::SetRcode(r) => pp.set_rcode(*r),
+        TopOp::Opcode => l.u8(pp.opcode()),
+        TopOp::SetOpcode(r) => pp.set_opcode(*r),
+        TopOp::Add { section, text } => {
+            let sec = match section & 3 {
+                0 => Section::Question,
+                1 => Section::Answer,
+                2 => Section::NameServers,
+                _ => Section::Additional,
+            };
+            // the C side sees the text up to its first NUL
+            let n = text.iter().position(|&c| c == 0).unwrap_or(text.len());
+            let r = match std::str::from_utf8(&text[..n]) {
+                Err(_) => Err(DSError::ParseError.into()),
+                Ok(s) => pp.insert_rr_from_string(sec, s),
+            };
+            l.rc(&r);
+        }
+        TopOp::RawPacket { cap } => {
+            let p = pp.packet();
+            if p.len() > *cap as usize {
+                l.u8(0xff);
+                l.u8(0); // buffer untouched
+            } else {
+                l.u8(0);
+                l.u32(p.len() as u32);
+                l.0.extend_from_slice(p);
+            }
+        }
+        TopOp::Question => match pp.question() {
+            None => {
+                l.u8(0xff);
+                l.str(b"");
+                l.u16(0);
+            }
+            Some((name, ty, _)) => {
+                if name.len() > 255 {
+                    l.u8(0xff);
+                    l.str(b"");
+                } else {
+                    l.u8(0);
+                    l.cstr(&name);
+                }
+                l.u16(ty);
+            }
+        },
+        TopOp::Rename {
+            target,
+            source,
+            suffix,
+        } => {
+            let r = pp.rename_with_raw_names(target, source, *suffix);
+            l.rc(&r);
+        }
+        TopOp::RawNameFromStr(n) => match dgen::raw_name_from_str(n, None) {
+            Ok(raw) => {
+                l.u8(0);
+                l.str(&raw);
+            }
+            Err(e) => l.rc(&Err(e)),
+        },
+        TopOp::Iter { section, progs } => match section & 3 {
+            0 => native_iter(pp.into_iter_answer(), progs, &mut l),
+            1 => native_iter(pp.into_iter_nameservers(), progs, &mut l),
+            2 => native_iter(pp.into_iter_additional(), progs, &mut l),
+            _ => {
+                let mut visits: u32 = 0;
+                let mut it = pp.into_iter_edns();
+                while let Some(item) = it {
+                    visits += 1;
+                    if visits >= MAX_VISITS {
+                        break;
+                    }
+                    it = item.next();
+                }
+                l.u8(0xC1);
+                l.u16(visits as u16);
+            }
+        },
+        TopOp::AbiVersion => l.u64(dnssector::fn_table().abi_version),
+    }
+    l.0
+}
+
+// ---------------------------------------------------------------------------------------------
+// execution
+// ---------------------------------------------------------------------------------------------
+
+fn viol(clause: &str, op: &str, key: &str, detail: String, step: usize) -> Violation {
+    Violation {
+        props: vec!["C15"],
+        clause: clause.into(),
+        op: op.into(),
+        key: key.into(),
+        detail,
+        step,
+    }
+}
+
+pub struct OutC {
+    pub violation: Option<Violation>,
+    pub log_hash: u64,
+    pub stats: Stats,
+    pub changed: bool,
+    pub steps: usize,
+}
+
+pub fn header_violations() -> Vec<Violation> {
+    let mut v = Vec::new();
+    if !DRIVER_COMPILED {
+        v.push(viol(
+            "header-does-not-compile",
+            "c_hook.h",
+            "driver",
+            format!("a hook driver written against the table does not compile against c_hook.h: {}", DRIVER_ERROR),
+            0,
+        ));
+    }
+    for (entry, msg) in PROBE_FAILURES {
+        v.push(viol(
+            "header-signature",
+            entry,
+            "probe",
+            format!(
+                "c_hook.h: calling FnTable.{} with the argument types the table takes does not compile: {}",
+                entry, msg
+            ),
+            0,
+        ));
+    }
+    v
+}
+
+pub fn exec_c(sc: &ScenC, run_tag: u64, verbose: bool) -> Result<OutC, String> {
+    let mut stats = Stats::new();
+    let mut log = Fnv::new();
+    let parse = |b: &[u8]| DNSSector::new(b.to_vec()).and_then(|d| d.parse());
+    let mut pn = parse(&sc.packet).map_err(|e| format!("parser rejects the generated packet: {}", e))?;
+    let mut pc = parse(&sc.packet).map_err(|e| e.to_string())?;
+    if unsafe { dnssim_driver_ok() } != 1 {
+        return Err("C driver not available (did not compile against c_hook.h)".into());
+    }
+    let table = dnssector::fn_table();
+    let mut logbuf = vec![0u8; 1 << 20];
+    let mut changed = false;
+    let mut steps = 0usize;
+    for (i, op) in sc.ops.iter().enumerate() {
+        steps += 1;
+        let kind = op.kind();
+        let before = pn.packet().to_vec();
+        // native first: a panic of the native API is a defect shared by both sides (not C15's)
+        let nat = guarded(|| native_top(&mut pn, op));
+        let nlog = match nat {
+            Ok(l) => l,
+            Err(p) => {
+                bump(&mut stats, "ended_by_unclaimed_native_panic");
+                log.write_str(&format!("{} native panic", kind));
+                return Ok(OutC {
+                    violation: Some(Violation {
+                        props: vec![],
+                        clause: "unclaimed-panic".into(),
+                        op: kind,
+                        key: first_words(&p),
+                        detail: p,
+                        step: i,
+                    }),
+                    log_hash: log.finish(),
+                    stats,
+                    changed,
+                    steps,
+                });
+            }
+        };
+        if pn.packet.is_none() {
+            return Err("native twin lost its packet".into());
+        }
+        // then the same operation from C, through the header's struct
+        let script = encode_top(op);
+        if verbose {
+            eprintln!("[{}] {} script={} native_log={}", i, kind, codec::hex(&script), codec::hex(&nlog[..nlog.len().min(64)]));
+        }
+        eprintln!("C {} {} {}", run_tag, i, kind);
+        let mut clen: usize = 0;
+        let rc = unsafe {
+            dnssim_run_op(
+                &table,
+                &mut pc,
+                script.as_ptr(),
+                script.len(),
+                logbuf.as_mut_ptr(),
+                logbuf.len(),
+                &mut clen,
+            )
+        };
+        if rc != 0 {
+            return Err(format!("C driver returned {} on op {}", rc, kind));
+        }
+        let clog = &logbuf[..clen];
+        if clog != &nlog[..] {
+            // a canary marker (0xEE id) at the first point of divergence can only come from C
+            let pos = clog.iter().zip(nlog.iter()).position(|(a, b)| a != b).unwrap_or(clog.len().min(nlog.len()));
+            if clog.get(pos) == Some(&0xEE) {
+                let id = clog.get(pos + 1).copied().unwrap_or(0);
+                return Ok(OutC {
+                    violation: Some(viol(
+                        "buffer-overrun",
+                        &kind,
+                        &format!("buffer{}", id),
+                        format!(
+                            "{} wrote outside the caller's buffer (canary {} damaged; 1=name 2=address 3=packet 4=question name 5=raw name)",
+                            kind, id
+                        ),
+                        i,
+                    )),
+                    log_hash: log.finish(),
+                    stats,
+                    changed,
+                    steps,
+                });
+            }
+        }
+        if clog != &nlog[..] {
+            let pos = clog.iter().zip(nlog.iter()).position(|(a, b)| a != b).unwrap_or(clog.len().min(nlog.len()));
+            let ctx = |l: &[u8]| codec::hex(&l[pos.saturating_sub(8)..l.len().min(pos + 24)]);
+            let as_text = |l: &[u8]| String::from_utf8_lossy(&l[..l.len().min(200)]).into_owned();
+            return Ok(OutC {
+                violation: Some(viol(
+                    "table-differs-from-native",
+                    &kind,
+                    "results",
+                    format!(
+                        "{}: results through the C table differ from the native call at log byte {} (C ...{}... vs native ...{}...; C log as text {:?}; native {:?})",
+                        kind,
+                        pos,
+                        ctx(clog),
+                        ctx(&nlog),
+                        as_text(clog),
+                        as_text(&nlog)
+                    ),
+                    i,
+                )),
+                log_hash: log.finish(),
+                stats,
+                changed,
+                steps,
+            });
+        }
+        match (&pc.packet, &pn.packet) {
+            (Some(a), Some(b)) if a == b => {}
+            _ => {
+                return Ok(OutC {
+                    violation: Some(viol(
+                        "table-differs-from-native",
+                        &kind,
+                        "packet",
+                        format!("{}: the packet bytes after the C-table call differ from the native call's", kind),
+                        i,
+                    )),
+                    log_hash: log.finish(),
+                    stats,
+                    changed,
+                    steps,
+                })
+            }
+        }
+        let oc = observe(&pc);
+        let on = observe(&pn);
+        if let Some(d) = first_diff(&oc, &on) {
+            return Ok(OutC {
+                violation: Some(viol(
+                    "table-differs-from-native",
+                    &kind,
+                    "object-state",
+                    format!("{}: packet object state after the C-table call differs from the native call's: {}", kind, d),
+                    i,
+                )),
+                log_hash: log.finish(),
+                stats,
+                changed,
+                steps,
+            });
+        }
+        if pn.packet() != &before[..] {
+            changed = true;
+        }
+        let has_rc = !matches!(
+            op,
+            TopOp::Flags | TopOp::Rcode | TopOp::Opcode | TopOp::AbiVersion | TopOp::SetFlags(_) | TopOp::SetRcode(_) | TopOp::SetOpcode(_)
+        );
+        if has_rc && nlog.contains(&0xff) {
+            bump(&mut stats, &format!("fault_fired:table_call_returned_-1:{}", kind));
+            changed = true;
+        }
+        bump(&mut stats, &format!("table_entry_called:{}", kind));
+        let mut h = Fnv::new();
+        h.write(&nlog);
+        h.write(pn.packet());
+        log.write_str(&format!("{} {:016x}", kind, h.finish()));
+    }
+    Ok(OutC {
+        violation: None,
+        log_hash: log.finish(),
+        stats,
+        changed,
+        steps,
+    })
+}
+
+// ---------------------------------------------------------------------------------------------
+// generation
+// ---------------------------------------------------------------------------------------------
+
+fn gen_cb(rng: &mut Rng, fault_pm: usize) -> Vec<CbOp> {
+    let n = rng.range(1, 6);
+    let mut v = Vec::new();
+    for _ in 0..n {
+        let fault = rng.below(1000) < fault_pm;
+        v.push(match rng.below(14) {
+            0 | 1 => CbOp::Name,
+            2 => CbOp::Type,
+            3 => CbOp::Class,
+            4 => CbOp::Ttl,
+            5 => CbOp::SetTtl(rng.next_u64() as u32),
+            6 => CbOp::Ip,
+            7 => {
+                let n = if rng.bool() { 4 } else { 16 };
+                CbOp::SetIp(rng.bytes(n))
+            }
+            8 | 9 => {
+                if fault {
+                    CbOp::SetRawName(match rng.below(5) {
+                        0 => vec![],
+                        1 => vec![0xc0, 0x0c],
+                        2 => {
+                            let mut b = vec![0x41];
+                            b.extend(vec![b'a'; 70]);
+                            b.push(0);
+                            b
+                        }
+                        3 => vec![5, b'a', b'b'],
+                        _ => vec![3, b'a', b'.', b'b', 0],
+                    })
+                } else {
+                    let t = *rng.pick(&[1usize, 5, 13, 64, 200, 255]);
+                    let nm = if rng.bool() {
+                        gen::gen_ldh_name(rng)
+                    } else {
+                        gen::gen_name_of_len(rng, t)
+                    };
+                    CbOp::SetRawName(nm.wire())
+                }
+            }
+            10 => {
+                let text = if fault {
+                    rng.pick(&[&b"a..b"[..], &b""[..], &[b'x'; 70][..], &[b'a', 0xc3, 0xa9][..]])
+                        .to_vec()
+                } else {
+                    gen::gen_ldh_name(rng).text()
+                };
+                let zone = if rng.chance(1, 3) {
+                    Name::from_labels(&[b"zone", b"test"]).wire()
+                } else {
+                    vec![]
+                };
+                CbOp::SetName { text, zone }
+            }
+            11 | 12 => CbOp::Delete,
+            _ => CbOp::Stop,
+        });
+    }
+    if rng.below(1000) < fault_pm {
+        // delete twice
+        v.push(CbOp::Delete);
+        v.push(CbOp::Delete);
+    }
+    v
+}
+
+pub fn gen_scen(rng: &mut Rng) -> ScenC {
+    let cfg = gen::PacketCfg {
+        shape: *rng.pick(&[
+            gen::Shape::Tiny,
+            gen::Shape::Typical,
+            gen::Shape::Typical,
+            gen::Shape::Typical,
+            gen::Shape::Many,
+            gen::Shape::ManySuffixes,
+        ]),
+        density: *rng.pick(&[0usize, 0, 400, 1000]),
+        opt: *rng.pick(&[
+            gen::OptPlace::Absent,
+            gen::OptPlace::Last,
+            gen::OptPlace::Last,
+            gen::OptPlace::First,
+            gen::OptPlace::Middle,
+        ]),
+        response: rng.chance(7, 8),
+        unique_tags: false,
+        max_section: 10,
+    };
+    let m = gen::gen_msg(rng, &cfg);
+    let packet = gen::encode_with(&m, &cfg, rng.next_u64());
+    let fault_pm = *rng.pick(&[0usize, 100, 300]);
+    let n = match rng.below(10) {
+        0..=5 => rng.range(1, 5),
+        6..=8 => rng.range(6, 12),
+        _ => rng.range(13, 30),
+    };
+    let names: Vec<Name> = {
+        let mut v = vec![];
+        if let Some(q) = &m.q {
+            v.push(q.name.clone());
+        }
+        for s in 0..3 {
+            for r in &m.sec[s] {
+                v.push(r.name.clone());
+            }
+        }
+        v
+    };
+    let plen = packet.len();
+    let mut ops = Vec::new();
+    for _ in 0..n {
+        let fault = rng.below(1000) < fault_pm;
+        ops.push(match rng.below(24) {
+            0 => TopOp::Flags,
+            1 => TopOp::SetFlags((rng.next_u64() as u32 & !0x8000) | (m.flags as u32 & 0x8000)),
+            2 => TopOp::Rcode,
+            3 => TopOp::SetRcode(rng.next_u64() as u8),
+            4 => TopOp::Opcode,
+            5 => TopOp::SetOpcode(rng.next_u64() as u8),
+            6..=8 => {
+                let mut section = rng.range(1, 3) as u8;
+                if !m.is_response() {
+                    section = 3;
+                }
+                let mut text = gen::gen_rr_text(rng);
+                if fault {
+                    text = gen::damage_rr_text(rng, &text);
+                    if rng.chance(1, 6) {
+                        section = 0; // full-record text into the question section (a second question)
+                    }
+                }
+                TopOp::Add {
+                    section,
+                    text: text.into_bytes(),
+                }
+            }
+            9 | 10 => TopOp::RawPacket {
+                cap: match rng.below(7) {
+                    0 => 0,
+                    1 => plen.saturating_sub(1).min(65535) as u16,
+                    2 => plen.min(65535) as u16,
+                    3 => (plen + 1).min(65535) as u16,
+                    4 => 8192,
+                    5 => 512,
+                    _ => rng.below(9000) as u16,
+                },
+            },
+            11 | 12 => TopOp::Question,
+            13 | 14 => {
+                let src = if names.is_empty() {
+                    gen::gen_ldh_name(rng)
+                } else {
+                    let nm = rng.pick(&names).clone();
+                    if nm.0.is_empty() {
+                        gen::gen_ldh_name(rng)
+                    } else {
+                        let k = rng.below(nm.0.len());
+                        Name(nm.0[k..].to_vec())
+                    }
+                };
+                if fault {
+                    match rng.below(3) {
+                        0 => TopOp::Rename {
+                            target: vec![],
+                            source: src.wire(),
+                            suffix: true,
+                        },
+                        1 => TopOp::Rename {
+                            target: gen::gen_name_of_len(rng, 255).wire(),
+                            source: src.wire(),
+                            suffix: true,
+                        },
+                        _ => TopOp::Rename {
+                            target: vec![b'a'; 256],
+                            source: src.wire(),
+                            suffix: false,
+                        },
+                    }
+                } else {
+                    let mut t = gen::gen_ldh_name(rng);
+                    if t.0.is_empty() {
+                        t = Name::from_labels(&[b"renamed", b"test"]);
+                    }
+                    TopOp::Rename {
+                        target: t.wire(),
+                        source: src.wire(),
+                        suffix: rng.bool(),
+                    }
+                }
+            }
+            15 => TopOp::RawNameFromStr(if fault {
+                rng.pick(&[&b"a..b"[..], &[b'x'; 70][..], &[b'a', 0xc3, 0xa9][..], &[b'y'; 254][..]])
+                    .to_vec()
+            } else {
+                gen::gen_ldh_name(rng).text()
+            }),
+            16 => TopOp::AbiVersion,
+            _ => {
+                let section = *rng.pick(&[0u8, 0, 0, 1, 2, 2, 3]);
+                let np = rng.range(1, 3);
+                TopOp::Iter {
+                    section,
+                    progs: (0..np).map(|_| gen_cb(rng, fault_pm)).collect(),
+                }
+            }
+        });
+    }
+    ScenC { packet, ops }
+}
+
+pub fn scen_for(seed: u64, run: u64) -> ScenC {
+    let s = prng::mix(seed, "C15", run);
+    let mut rng = Rng::new(s);
+    gen_scen(&mut rng)
+}
+
+pub fn run_lane_c(seed: u64, run: u64) -> RunReport {
+    let sc = scen_for(seed, run);
+    let scenario = serde_json::to_value(&sc).unwrap();
+    let mut sh = Fnv::new();
+    for op in &sc.ops {
+        sh.write_str(&op.kind());
+        if let TopOp::Iter { progs, .. } = op {
+            for p in progs {
+                for c in p {
+                    sh.write_str(&format!("{:?}", std::mem::discriminant(c)));
+                }
+            }
+        }
+    }
+    match exec_c(&sc, run, false) {
+        Ok(out) => RunReport {
+            log_hash: out.log_hash,
+            shape_hash: sh.finish(),
+            nontrivial: out.changed,
+            steps: out.steps,
+            stats: out.stats,
+            violation: out.violation.map(|v| (v, scenario.clone())),
+            rejected: None,
+            scenario,
+            lane: "C",
+        },
+        Err(e) => RunReport {
+            log_hash: 0,
+            shape_hash: 0,
+            nontrivial: false,
+            steps: 0,
+            stats: Stats::new(),
+            violation: None,
+            rejected: Some(e),
+            scenario,
+            lane: "C",
+        },
+    }
+}
+
+pub fn replay(scenario: &Value, verbose: bool) -> Result<Option<Violation>, String> {
+    if let Some(entry) = scenario.get("header_probe").and_then(|v| v.as_str()) {
+        return Ok(header_violations().into_iter().find(|v| v.op == entry));
+    }
+    let sc: ScenC = serde_json::from_value(scenario.clone()).map_err(|e| e.to_string())?;
+    exec_c(&sc, 0, verbose).map(|o| o.violation)
+}
+
+/// A worker died while `run` was in flight: in this lane that is itself a verdict (a hook
+/// script that respects the preconditions crashed the process).
+pub fn death_violation(seed: u64, run: u64, why: &str) -> Value {
+    let sc = scen_for(seed, run);
+    // the last "C <run> <step> <op>" marker on the worker's stderr names the call in flight
+    let marker = why
+        .lines()
+        .filter(|l| l.trim_start().starts_with("C "))
+        .last()
+        .map(|l| l.trim().to_string())
+        .unwrap_or_default();
+    let opname = marker.split_whitespace().nth(3).unwrap_or("table-call").to_string();
+    let v = viol(
+        "crash",
+        &opname,
+        "process-died",
+        format!(
+            "a hook script that respects the table's preconditions crashed the process in {} ({})",
+            opname,
+            why.lines().find(|l| l.contains("panic") || l.contains("signal")).unwrap_or("").trim()
+        ),
+        0,
+    );
+    json!({"run": run, "seed": seed, "lane": "C", "violation": crate::lanes::violation_json(&v),
+           "scenario": serde_json::to_value(&sc).unwrap()})
+}
+
+/// Runs a candidate in a grandchild process so that a crash is an observable outcome.
+fn crashes_or_violates(sc: &ScenC, sig: &str) -> bool {
+    let exe = match std::env::current_exe() {
+        Ok(e) => e,
+        Err(_) => return false,
+    };
+    let tmp = format!("{}/replays/.cand-{}.json", crate::supervisor::root(), std::process::id());
+    let doc = json!({"property": "C15", "lane": "C", "signature": sig, "scenario": sc});
+    if std::fs::write(&tmp, doc.to_string()).is_err() {
+        return false;
+    }
+    let st = std::process::Command::new(exe)
+        .arg("replay")
+        .arg(&tmp)
+        .stdout(std::process::Stdio::null())
+        .stderr(std::process::Stdio::null())
+        .status();
+    let _ = std::fs::remove_file(&tmp);
+    match st {
+        Ok(s) => {
+            if sig.starts_with("crash|") {
+                s.code().is_none() || s.code().map(|c| c > 2).unwrap_or(false)
+            } else {
+                s.code() == Some(1)
+            }
+        }
+        Err(_) => false,
+    }
+}
+
+pub fn minimise(scenario: &Value, sig: &str, budget: usize) -> Value {
+    let mut best: ScenC = match serde_json::from_value(scenario.clone()) {
+        Ok(s) => s,
+        Err(_) => return json!({"scenario": scenario, "candidates": 0}),
+    };
+    let budget = budget.min(400);
+    let mut tried = 0usize;
+    let mut check = |c: &ScenC, tried: &mut usize| -> bool {
+        *tried += 1;
+        crashes_or_violates(c, sig)
+    };
+    if !check(&best, &mut tried) {
+        return json!({"scenario": best, "candidates": tried});
+    }
+    let mut progress = true;
+    while progress && tried < budget {
+        progress = false;
+        let mut i = best.ops.len();
+        while i > 0 && tried < budget {
+            i -= 1;
+            if best.ops.len() <= 1 {
+                break;
+            }
+            let mut c = best.clone();
+            c.ops.remove(i);
+            if check(&c, &mut tried) {
+                best = c;
+                progress = true;
+            }
+        }
+        // shrink callback programs
+        for oi in 0..best.ops.len() {
+            let nprogs = match &best.ops[oi] {
+                TopOp::Iter { progs, .. } => progs.len(),
+                _ => 0,
+            };
+            for pi in 0..nprogs {
+                let mut k = match &best.ops[oi] {
+                    TopOp::Iter { progs, .. } => progs[pi].len(),
+                    _ => 0,
+                };
+                while k > 0 && tried < budget {
+                    k -= 1;
+                    let mut c = best.clone();
+                    if let TopOp::Iter { progs, .. } = &mut c.ops[oi] {
+                        if k >= progs[pi].len() {
+                            continue;
+                        }
+                        progs[pi].remove(k);
+                    }
+                    if check(&c, &mut tried) {
+                        best = c;
+                        progress = true;
+                    }
+                }
+            }
+        }
+        // shrink the packet
+        if let Ok(d) = codec::decode(&best.packet) {
+            let mut m = d.msg;
+            if d.layout.has_pointer && tried < budget {
+                let mut c = best.clone();
+                c.packet = codec::encode_literal(&m);
+                if check(&c, &mut tried) {
+                    best = c;
+                    progress = true;
+                }
+            }
+            if !codec::decode(&best.packet).map(|d| d.layout.has_pointer).unwrap_or(true) {
+                for s in 0..3 {
+                    let mut k = m.sec[s].len();
+                    while k > 0 && tried < budget {
+                        k -= 1;
+                        let mut m2 = m.clone();
+                        m2.sec[s].remove(k);
+                        let mut c = best.clone();
+                        c.packet = codec::encode_literal(&m2);
+                        if check(&c, &mut tried) {
+                            best = c;
+                            m = m2;
+                            progress = true;
+                        }
+                    }
+                }
+            }
+        }
+    }
+    json!({"scenario": best, "candidates": tried})
 }
